@@ -99,7 +99,7 @@ static int zv_tryAdd(POOL_ctx* ctx, POOL_function function, void* opaque) {
     {   unsigned const id = job->jobID; size_t const ss = job->src.size, ps = job->prefix.size;
         unsigned const fj = job->firstJob, lj = job->lastJob;
         int const r = POOL_tryAdd(ctx, function, opaque);
-        if (r) printf("J %u %zu %zu %u %u\n", id, ss, ps, fj, lj);
+        if (r) printf("J %u %zu %zu %u %u %d\n", id, ss, ps, fj, lj, job->params.compressionLevel);   /* round 3: + the level the job was prepared with */
         return r;
     }
 }
@@ -571,6 +571,7 @@ int main(void) {
                 need_arena((size_t)nsec * sec + tail + 4096);
                 for (pass = 0; pass < 2; pass++) {
                     size_t const chunk = pass ? small : ((size_t)1 << 30); size_t op = 0, r = 0; int k; ZSTD_CCtx* x = ZSTD_createCCtx();
+                    printf("X mtpass %d\n", pass);      /* the J lines (posted jobs) that follow belong to this pass */
                     ZSTD_CCtx_setParameter(x, ZSTD_c_nbWorkers, nbw); ZSTD_CCtx_setParameter(x, ZSTD_c_jobSize, (int)sec); ZSTD_CCtx_setParameter(x, ZSTD_c_compressionLevel, 1);
                     for (k = 0; k < nsec && !ZSTD_isError(r); k++) { ZSTD_inBuffer ib; ib.src = blob + (size_t)k * sec; ib.size = sec; ib.pos = 0;
                         while (ib.pos < ib.size) { ZSTD_outBuffer ob; ob.dst = dstArena + op; ob.size = (arenaCap - op < chunk) ? arenaCap - op : chunk; ob.pos = 0;
